@@ -24,6 +24,15 @@ pub struct NC(pub u32);
 pub trait Tr {
     fn fc(&self) -> u32;
     fn fnc(&self) -> NC;
+    fn fin(&self) -> NCI;
+}
+
+/// Not Clone, but convertible from a value that is: `returns(7u32)` is the same single-use response.
+pub struct NCI(pub u32);
+impl From<u32> for NCI {
+    fn from(v: u32) -> NCI {
+        NCI(v)
+    }
 }
 """
 
@@ -41,6 +50,8 @@ def start_state(start):
 
 def step(state, tok, clone):
     """Reference automaton: next state or None (must not type-check)."""
+    # ("into" = an output type that is not Clone, configured through `Into` from a value that is)
+    clone = clone is True
     kind, order = state[0], state[1]
     if kind == "DR":
         if tok == "returns":
@@ -81,9 +92,9 @@ def is_clause(state):
 
 def tok_src(tok, clone):
     if tok == "returns":
-        return ".returns(7u32)" if clone else ".returns(NC(7))"
+        return ".returns(7u32)" if clone in (True, "into") else ".returns(NC(7))"
     if tok == "answers":
-        return ".answers(&|_| 8u32)" if clone else ".answers(&|_| NC(8))"
+        return ".answers(&|_| 8u32)" if clone is True else (".answers(&|_| NCI(8))" if clone == "into" else ".answers(&|_| NC(8))")
     if tok == "panics":
         return '.panics("x")'
     if tok == "once":
@@ -98,7 +109,7 @@ def tok_src(tok, clone):
 
 
 def word_text(start, clone, toks, as_clause):
-    m = "Mk::fc" if clone else "Mk::fnc"
+    m = "Mk::fc" if clone is True else ("Mk::fin" if clone == "into" else "Mk::fnc")
     chain = "".join(tok_src(t, clone) for t in toks)
     if start == "stub_call":
         body = f"let _s = {m}.stub(|each| {{ let _b = each.call(matching!()){chain}; }});"
@@ -115,12 +126,12 @@ def enumerate_words(max_len):
     """(key, source, expected_accept) for every valid prefix extended by every token / clause use."""
     words = []
     for start in STARTS:
-        for clone in (True, False):
+        for clone in (True, False, "into"):
             frontier = [([], start_state(start))]
             for length in range(0, max_len + 1):
                 nxt = []
                 for toks, st in frontier:
-                    label = f"{start}[{'Clone' if clone else 'non-Clone'}]" + "".join("." + t for t in toks)
+                    label = f"{start}[{'Clone' if clone is True else ('non-Clone via Into' if clone == 'into' else 'non-Clone')}]" + "".join("." + t for t in toks)
                     # use as a clause
                     if start == "stub_call":
                         # inside a stub every valid builder state may simply be dropped
